@@ -26,7 +26,7 @@ theorem single_kw_tie :
 theorem dispatch_tie : readDispatch = [[35], [34], [46]] := by decide +kernel
 theorem comment_tie : commentCases = [[0], [13, 10]] := by decide +kernel
 theorem blockstring_tie : blockStringCases = [[32, 9, 13, 10], [0], [34], [92]] := by decide +kernel
-theorem string_tie : stringCases = [[32, 9], [0], [34, 13, 10], [92]] := by decide +kernel
+theorem string_tie : stringCases = [[32, 9], [0], [34], [13, 10], [92]] := by decide +kernel
 theorem ident_tie : identConds =
     [["r>='a'&&r<='z'"], ["r>='A'&&r<='Z'"], ["r>='0'&&r<='9'"], ["r==runes.SUB"], ["r==runes.UNDERSCORE"], []] := by decide +kernel
 theorem digit_tie : digitConds = [["r>='0'&&r<='9'"], []] := by decide +kernel
